@@ -55,10 +55,11 @@ class Grow:
 
 class Post:
     """list after the loop: len0 + n*a elements, minus trailing pops"""
-    __slots__ = ("name", "len0", "n", "a", "pops", "owner", "tag", "grow")
+    __slots__ = ("name", "len0", "n", "a", "pops", "owner", "tag", "grow", "conds", "pure")
 
     def __init__(s, name, len0, n, a, grow, owner='fresh'):
         s.name = name; s.len0 = len0; s.n = n; s.a = a; s.pops = 0; s.owner = owner; s.tag = None; s.grow = grow
+        s.conds = None; s.pure = False
 
     def length(s): return lift(s.len0 - s.pops) + s.n * s.a
     def __repr__(s): return "Post(%s)" % s.name
@@ -81,6 +82,9 @@ class Opaque:
     """value the model does not interpret (strings built at run time, datetime, paths)"""
     def __init__(s, what="opaque"): s.what = what
     def __repr__(s): return "<%s>" % s.what
+
+
+NAN = Opaque("NaN")        # the not-a-number cell of the persistence model (pvc.iomodel); compares unequal to everything
 
 
 class Fn:
@@ -302,6 +306,9 @@ class Exec:
 
     def apply(s, f, args, kwargs, node=None):
         if isinstance(f, Opaque): return Opaque(f.what + "()")
+        if isinstance(f, ModRef) and f.name == 'Path' and len(args) == 1 and not kwargs:
+            from . import iomodel
+            return iomodel.to_path(args[0])
         if not isinstance(f, Fn):
             if isinstance(f, Obj):
                 m = s.src.method(f.cls, '__call__')
@@ -421,6 +428,14 @@ class Exec:
         if isinstance(st, ast.Assert):
             if not s.decide(s.truth(s.eval(st.test, env), st), st): raise Raised("AssertionError", node=st)
             return
+        if isinstance(st, ast.With):
+            # `with open(...) as f:` of the persistence model: the body runs with f bound; closing has no modelled effect
+            for it in st.items:
+                v = s.eval(it.context_expr, env)
+                if not (isinstance(v, Obj) and v.cls == '$File'): raise Unsupported("with statement on %r" % (v,), st, env.get('__path__'))
+                if it.optional_vars is not None: s.assign(it.optional_vars, v, env)
+            s.block(st.body, env)
+            return
         if isinstance(st, ast.For): return s.for_stmt(st, env)
         if isinstance(st, ast.While):
             if s.while_cut is not None: return s.while_cut(s, st, env)
@@ -443,7 +458,10 @@ class Exec:
         elif isinstance(t, ast.Subscript):
             o = s.eval(t.value, env); i = s.eval(t.slice, env)
             s.note_write(o, "item assignment")
-            if isinstance(o, PList) and isinstance(i, int): o.items[i] = v
+            if isinstance(o, Obj) and o.cls == '$Frame':
+                from . import iomodel
+                iomodel.frame_set(s, o, i, v, t)
+            elif isinstance(o, PList) and isinstance(i, int): o.items[i] = v
             elif isinstance(o, Vec) and isinstance(i, int): o.xs[i] = v
             elif isinstance(o, dict): o[i] = v
             else: raise Unsupported("item assignment on %r[%r]" % (o, i), t)
@@ -467,6 +485,9 @@ class Exec:
             s.assign(st.target, v, env); s.block(st.body, env)
 
     def iter_obj(s, o, node):
+        if o.cls.startswith('$'):
+            from . import iomodel
+            return iomodel.model_iter(s, o, node)
         gi = s.src.method(o.cls, '__getitem__') if o.cls in s.src.classes else None
         if gi is not None and len(gi.body) == 1 and isinstance(gi.body[0], ast.Return):
             r = gi.body[0].value
@@ -549,6 +570,8 @@ class Exec:
             for a in g.app[1:]:
                 if not same_shape(g.app[0], a): raise Unsupported("element shape of %s differs between appends" % L, st, path)
             env[L] = Post(L, len(g.init), n, len(g.app), g, owner=g.owner)
+            # element j of the finished list = the value appended by iteration j (only when no iteration reads an earlier element)
+            env[L].conds = list(s.pc[mark:]); env[L].pure = all(not env[L2].grow.reads if isinstance(env[L2], Post) else not env[L2].reads for L2 in grown)
         for a in assigned:
             env.pop(a, None)          # loop locals are not meaningful after the loop (k-dependent)
 
@@ -571,7 +594,16 @@ class Exec:
 
     def e_Constant(s, e, env): return e.value
     def e_Lit(s, e, env): return e.v
-    def e_JoinedStr(s, e, env): return Opaque("str")
+    def e_JoinedStr(s, e, env):
+        parts = []
+        for v in e.values:
+            if isinstance(v, ast.Constant): parts.append(v.value); continue
+            if isinstance(v, ast.FormattedValue) and v.format_spec is None and v.conversion == -1:
+                try: x = s.eval(v.value, env)
+                except Unsupported: return Opaque("str")
+                if isinstance(x, str): parts.append(x); continue
+            return Opaque("str")
+        return "".join(parts)
     def e_Name(s, e, env): return s.lookup(e.id, env, e)
     def e_Tuple(s, e, env): return tuple(s.eval(x, env) for x in e.elts)
     def e_List(s, e, env): return PList([s.eval(x, env) for x in e.elts])
@@ -595,6 +627,10 @@ class Exec:
             if b.name == 'numpy.linalg' and attr == 'lstsq': return Fn('builtin', name='numpy.linalg.lstsq', py=_ext('numpy.linalg.lstsq'))
             if b.name == 'optimize' and attr == 'minimize': return Fn('builtin', name='optimize.minimize', py=_ext('optimize.minimize'))
             if b.name == 'datetime': return Opaque('datetime.' + attr)
+            if b.name in ('pandas', 'json', 'joblib'):
+                from . import iomodel
+                r = iomodel.module_attr(s, b.name, attr, node)
+                if r is not None: return r
             if b.name == 'sys' and attr == 'float_info': return ModRef('sys.float_info')
             if b.name == 'sys.float_info' and attr in ('epsilon', 'max', 'min'):
                 import sys as _sys
@@ -604,6 +640,14 @@ class Exec:
                 if attr in ('exp', 'log', 'sqrt') and attr in NUMPY: return Fn('builtin', name='math.' + attr, py=NUMPY[attr])
                 if attr == 'inf': return INF
             raise Unsupported("%s.%s" % (b.name, attr), node)
+        if isinstance(b, Obj) and b.cls.startswith('$'):
+            from . import iomodel
+            return iomodel.model_attr(s, b, attr, node)
+        if isinstance(b, str) and attr in ('startswith', 'endswith'):
+            def _sw(s_, x, b=b, attr=attr):
+                if not isinstance(x, str): raise Unsupported("str.%s with a non-literal argument" % attr, node)
+                return getattr(b, attr)(x)
+            return Fn('builtin', name='str.' + attr, py=_sw)
         if isinstance(b, Obj):
             if attr in b.f: return b.f[attr]
             if b.cls == 'Design^T' and attr == 'T': return Obj('Design', dict(cols=b.f['rows']))
@@ -621,6 +665,18 @@ class Exec:
         if isinstance(b, Fn) and b.kind == 'class':
             cc = s.src.class_consts(b.name)
             if attr in cc: return cc[attr]
+            if b.name in s.src.classes:
+                # class-level object constant (e.g. Mixtures.H2O_EtOH = Mixture(...)): evaluated once per run, one shared object
+                cache = s.__dict__.setdefault('_cconst', {})
+                if (b.name, attr) in cache: return cache[(b.name, attr)]
+                cpath, cdef = s.src.classes[b.name]
+                for n_ in cdef.body:
+                    tgt = n_.target if isinstance(n_, ast.AnnAssign) else n_.targets[0] if isinstance(n_, ast.Assign) and len(n_.targets) == 1 else None
+                    if isinstance(tgt, ast.Name) and tgt.id == attr and getattr(n_, 'value', None) is not None and not s.src.is_attrs(b.name):
+                        v = s.eval(n_.value, {'__path__': cpath})
+                        if isinstance(v, Obj): v.owner = 'global'; v.tag = "%s.%s" % (b.name, attr)
+                        cache[(b.name, attr)] = v
+                        return v
             m = s.src.method(b.name, attr)
             if m is not None:
                 decs = [ast.unparse(d) for d in m.decorator_list]
@@ -772,12 +828,16 @@ class Exec:
         return s.index(b, i, e)
 
     def slice(s, b, lo, hi, node):
+        if isinstance(b, Opaque): return Opaque("str")
         xs = b.items if isinstance(b, PList) else b.xs if isinstance(b, Vec) else b if isinstance(b, (list, tuple)) else None
         if xs is None or not all(isinstance(v, (int, type(None))) for v in (lo, hi)): raise Unsupported("slice of %r" % (b,), node)
         r = xs[lo:hi]
         return Vec(r) if isinstance(b, Vec) else PList(r) if isinstance(b, PList) else r
 
     def index(s, b, i, node=None):
+        if isinstance(b, Obj) and b.cls.startswith('$'):
+            from . import iomodel
+            return iomodel.model_index(s, b, i, node)
         if isinstance(b, Vec):
             if isinstance(i, int): return b.xs[i]
             raise Unsupported("symbolic index into a numpy vector", node)
@@ -807,6 +867,13 @@ class Exec:
         if isinstance(b, Post):
             i2 = lift(i)
             if not s.decide(band(cmp('>=', i2, 0), cmp('<', i2, b.length())), node): raise Raised('IndexError', node=node)
+            if b.a == 1 and b.pops == 0 and b.pure and b.conds is not None:
+                if b.len0 > 0:
+                    if isinstance(i, int) and i < b.len0: return b.grow.init[i]
+                    if not isinstance(i, int) and s.decide(cmp('<', i2, b.len0), node): raise Unsupported("symbolic index into the prefix of %s" % b.name, node)
+                j = i2 - b.len0
+                for c in b.conds: s.assume(ir.subst(c, {'k': j}), 'the iteration that appended this element completed normally')
+                return subst_value(b.grow.app[0], {'k': j})
             return Opaque("%s[%s] after the loop" % (b.name, show(i2)))
         if isinstance(b, Obj):
             gi = s.src.method(b.cls, '__getitem__') if b.cls in s.src.classes else None
@@ -851,6 +918,9 @@ class Exec:
 
     # ------------------------------------------------------------------ operators
     def binop(s, op, a, b, node=None):
+        if isinstance(a, Obj) and a.cls == '$Path' and isinstance(op, ast.Div):
+            from . import iomodel
+            return iomodel.path_div(s, a, b)
         if isinstance(a, Opaque) or isinstance(b, Opaque): return Opaque("str")
         if isinstance(a, str) or isinstance(b, str):
             if isinstance(op, (ast.Add, ast.Mod)): return Opaque("str")
@@ -920,6 +990,10 @@ class Exec:
         s.pc.append(cmp('>', a, 0))
 
     def compare(s, op, a, b, node=None):
+        if (a is NAN or b is NAN) and isinstance(op, (ast.Eq, ast.NotEq, ast.Lt, ast.LtE, ast.Gt, ast.GtE)):
+            return isinstance(op, ast.NotEq)
+        if isinstance(op, (ast.Is, ast.IsNot)) and isinstance(a, ModRef) and isinstance(b, ModRef):
+            return (a.name == b.name) if isinstance(op, ast.Is) else (a.name != b.name)
         if isinstance(op, (ast.Is, ast.IsNot)):
             if isinstance(a, (T, B)) or isinstance(b, (T, B)):
                 r = False if (a is None or b is None) else None
@@ -1226,6 +1300,9 @@ NUMPY = {'exp': _vecmap(_exp1), 'log': _vecmap(_log1), 'sqrt': _vecmap(_sqrt1), 
 
 
 def _len(s, x):
+    if isinstance(x, Obj) and x.cls.startswith('$'):
+        from . import iomodel
+        return iomodel.model_len(s, x)
     if isinstance(x, Seq): return x.n
     if isinstance(x, Post): return x.length()
     if isinstance(x, Grow): raise Unsupported("len of a growing list inside a generic loop")
@@ -1356,7 +1433,19 @@ def _isinstance(s, x, c):
 BUILTINS = {'float': _float, 'int': _int, 'round': _round, 'getattr': _getattr, 'len': _len, 'range': _range, 'sum': _sum,
             'abs': _abs, 'max': _minmax(tmax, max), 'min': _minmax(tmin, min), 'list': _list, 'set': _set, 'copy': _copy,
             'filter': _filter, 'print': lambda s, *a, **k: None, 'str': lambda s, *a: Opaque("str"),
-            'tuple': lambda s, x: tuple(x.items) if isinstance(x, PList) else tuple(x)}
+            'tuple': lambda s, x: tuple(x.items) if isinstance(x, PList) else tuple(x),
+            'hash': lambda s, *a: Opaque("hash"), 'type': lambda s, x: _type_of(s, x), 'open': lambda s, *a, **k: _open(s, *a, **k)}
+
+
+def _type_of(s, x):
+    if isinstance(x, Obj) and x.cls == '$Path': return ModRef('Path')
+    if isinstance(x, Obj) and x.cls in s.src.classes: return Fn('class', name=x.cls)
+    return Opaque("type")
+
+
+def _open(s, *a, **k):
+    from . import iomodel
+    return iomodel.open_(s, *a, **k)
 
 
 # ================================================================================================ path enumeration
